@@ -742,11 +742,34 @@ pub fn run_history(rt: &tokio::runtime::Runtime, p: &UProfile, seed: u64, idx: u
         let pool = match ctor {
             0 if cfg_timeout.is_none() && !runtime => Pool::new(max_size),
             2 if cfg_timeout.is_none() && !runtime => {
-                let v: Vec<UObj> = (0..max_size).map(|_| d.new_obj()).collect();
+                // From<IntoIterator>: the pool is as large as the number of objects it is given, whatever
+                // the iterator is backed by (a Vec with spare capacity, a partly consumed into_iter(), ...)
+                let how = rng.below(4);
+                let mut v: Vec<UObj> = Vec::with_capacity(max_size + if how == 1 { 1 + rng.usize_below(9) } else { 0 });
+                for _ in 0..max_size {
+                    v.push(d.new_obj());
+                }
                 for o in &v {
                     lock(&w).locs[o.id as usize] = Loc::InPool;
                 }
-                Pool::from(v)
+                lock(&w).ev(format!("  from-iterator variant {}", how));
+                match how {
+                    2 => {
+                        // a partly consumed vec::IntoIter (collect() reuses its buffer)
+                        let mut all: Vec<UObj> = Vec::with_capacity(max_size + 3);
+                        for _ in 0..3 {
+                            all.push(d.new_obj());
+                        }
+                        all.extend(v);
+                        let mut it = all.into_iter();
+                        for _ in 0..3 {
+                            d.external.push(it.next().unwrap());
+                        }
+                        Pool::from(it)
+                    }
+                    3 => Pool::from(v.into_iter().collect::<std::collections::VecDeque<_>>()),
+                    _ => Pool::from(v),
+                }
             }
             _ => {
                 let mut c = PoolConfig::new(max_size);
